@@ -109,3 +109,12 @@ package core
 //@ ensures [C19] floatstring: typeis(v, "string") && !typeConvertible(rvTypeOf(valueOfS(v)), floatT()) && parseFloatOK(as(v, "string"), 64) ==> same(result, parseFloatVal(as(v, "string"), 64))
 //@ ensures [C19] nonnumeric: typeis(v, "string") && !typeConvertible(rvTypeOf(valueOfS(v)), floatT()) && !parseFloatOK(as(v, "string"), 64) ==> same(result, f64(0))
 //@ ensures [C19] other: v != nil && !typeConvertible(rvTypeOf(valueOfS(v)), floatT()) && !typeis(v, "string") && !typeis(v, "bool") ==> same(result, f64(0))
+
+// toChar: Go's string(rune) for every code point (no byte-wise shortcut); toRune of the empty string is 0
+//@ func ImportToX$5
+//@ props C19
+//@ ensures [C19] char: result == strOfRune(s)
+
+//@ func ImportToX$6
+//@ props C19
+//@ ensures [C19] empty: len(s) == 0 ==> result == 0
